@@ -365,6 +365,14 @@ func extractLayout(w *World, fn *ssa.Function, buf ssa.Value, encode bool, depth
 			o, _ := classify(ev)
 			ops = append(ops, o...)
 		}
+		// a text followed by a NUL at the very end of the message is a NUL-terminated text: one blob, which a decoder
+		// reads with ReadString(0) (whether the terminator is handled rightly there is R10.16's business)
+		if encode && len(ops) >= 2 {
+			last, prev := ops[len(ops)-1], ops[len(ops)-2]
+			if last.Kind == "u8" && last.Const != nil && *last.Const == 0 && prev.Kind == "blob" {
+				ops = ops[:len(ops)-1]
+			}
+		}
 		facts := map[ssa.Value]bool{}
 		for k, v := range e.State.Facts {
 			facts[k] = v
